@@ -18,6 +18,8 @@
 //	start s1 i3 <ans> [!k]                   => ok|exists acc=<records>
 //	ctr s1 <inhex> <outhex>                  => ok
 //	interim s1 <ans> [!k]                    => ok|skip acc=..
+//	interim s1 <ans> @17:stop:s1:<cause>:<ans> => ok acc=.. inj=17:ok|-|-   (StopSession runs to completion while the
+//	                                            interim update is parked in front of its send)
 //	stop s1 <cause> <ans> [!k]               => ok|notfound acc=..
 //	deq <ans> [!k]                           => empty | done acc=.. ord=<rN|->
 //	retry <ans> [!k]                         => done acc=.. ord=<rN,...|->
@@ -296,10 +298,14 @@ type run struct {
 	timeout  time.Duration
 }
 
-// injection = one step of the background processor executed while an API call is parked at a marker
+// injection = one step of the background processor executed while an API call is parked at a marker, or (kind
+// stop, marker 17 only) a complete StopSession call executed while an interim update - a goroutine of its own in
+// production - is parked in front of its send
 type injection struct {
 	at      int    // marker id
-	kind    string // deq | retry
+	kind    string // deq | retry | stop
+	sid     string // stop: the session
+	cause   uint32 // stop: Acct-Terminate-Cause
 	ans     string
 	done    bool
 	res     string
@@ -365,6 +371,11 @@ func (r *run) runInjected(inj *injection) {
 	case "retry":
 		r.am.RetryForVerif()
 		inj.res = "done"
+	case "stop":
+		inj.res = "ok"
+		if err := r.am.StopSession(inj.sid, inj.cause); err != nil {
+			inj.res = "notfound"
+		}
 	}
 	r.nested = nil
 	r.learn()
@@ -372,7 +383,19 @@ func (r *run) runInjected(inj *injection) {
 	for _, id := range inj.order {
 		ord = append(ord, r.rtok(id))
 	}
+	if inj.kind == "stop" {
+		inj.obs = inj.res + "|-|-"
+		return
+	}
 	inj.obs = inj.res + "|" + join(ord) + "|" + join(r.abandonedOf(inj.order, inj.applied, inj.before))
+}
+
+// nestedMarker: pt is a marker of the injected step itself (not of the call it was injected into)
+func nestedMarker(inj *injection, pt int) bool {
+	if inj.kind == "stop" {
+		return pt == 3 || pt == 4 || pt == 5 || pt == 6 || pt == 20 || pt == 21
+	}
+	return pt == 7 || pt == 8
 }
 
 func (r *run) hook(pt int, detail string) {
@@ -387,7 +410,7 @@ func (r *run) hook(pt int, detail string) {
 		r.drainMu.Lock()
 		r.drainOwn = true
 	}
-	if inj := r.nested; inj != nil && (pt == 7 || pt == 8) { // a marker of the injected processor step
+	if inj := r.nested; inj != nil && nestedMarker(inj, pt) { // a marker of the injected step
 		if isSend(pt) {
 			a := r.nextAnswer(inj.ans, &inj.ansIdx)
 			r.c.srv.set(a)
@@ -693,11 +716,24 @@ func parseCrash(toks []string) ([]string, int, bool) {
 	return toks, 0, false
 }
 
-// parseInject strips trailing `@<marker>:deq|retry:<ans>` tokens
+// parseInject strips trailing `@<marker>:deq|retry:<ans>` and `@17:stop:<sid>:<cause>:<ans>` tokens
 func parseInject(toks []string) ([]string, []*injection, bool) {
 	var out []*injection
 	for len(toks) > 0 && strings.HasPrefix(toks[len(toks)-1], "@") {
 		f := strings.Split(toks[len(toks)-1][1:], ":")
+		if len(f) == 5 && f[0] == "17" && f[1] == "stop" && validSid(f[2]) && okAns(f[4]) {
+			cause, err := strconv.ParseUint(f[3], 10, 32)
+			if err != nil {
+				return toks, nil, false
+			}
+			a := f[4]
+			if a == "-" {
+				a = ""
+			}
+			out = append([]*injection{{at: 17, kind: "stop", sid: f[2], cause: uint32(cause), ans: a}}, out...)
+			toks = toks[:len(toks)-1]
+			continue
+		}
 		if len(f) != 3 || (f[1] != "deq" && f[1] != "retry") || !okAns(f[2]) {
 			return toks, nil, false
 		}
